@@ -155,7 +155,7 @@ mod vk_iter {
                 assert!(c.begin_idx == b, "[C02 C03 iter-begin] begin index is the ticket");
                 let l = c.values.len();
                 assert!(l == items && l >= 1 && l <= n, "[C01 C03 iter-exact-len] the chunk holds exactly the items taken from the wrapped iterator, 1 <= len <= n");
-                assert!(l == n || ended, "[C03 iter-short-only-at-end] a chunk is shorter than n only when the source ended");
+                assert!(l == n || ended, "[C01 C02 C03 iter-short-only-at-end] a chunk is shorter than n only when the source ended");
                 let mut j = 0;
                 while j < 2 { if j < l { assert!(c.values.next() == Some(k + j), "[C01 C02 C03 iter-contents] items are delivered in source order"); } j += 1; }
                 assert!(c.values.next().is_none(), "[C03 iter-exact-len] the chunk yields exactly the announced number of items");
@@ -270,7 +270,7 @@ mod vk_iter {
                 assert!(c.begin_idx == b, "[C02 C03 iter-begin] begin index is the ticket");
                 let l = c.values.len();
                 assert!(l == items && l >= 1 && l <= n, "[C01 C03 iter-exact-len] the chunk holds exactly the items taken from the wrapped iterator, 1 <= len <= n");
-                assert!(l == n || ended, "[C03 iter-short-only-at-end] a chunk is shorter than n only when the source ended");
+                assert!(l == n || ended, "[C01 C02 C03 iter-short-only-at-end] a chunk is shorter than n only when the source ended");
                 let mut j = 0;
                 while j < 2 { if j < l { assert!(c.values.next() == Some(k + j), "[C01 C02 C03 iter-contents] items are delivered in source order"); } j += 1; }
                 assert!(c.values.next().is_none(), "[C03 iter-exact-len] the chunk yields exactly the announced number of items (stale slots are never yielded)");
